@@ -12,10 +12,11 @@
 (* 65" and "ignore it" are allowed.                                        *)
 (*                                                                         *)
 (* States:  "absent" | "valid" | "edge" | "range" | "text"                 *)
-(*   area   option 2.5 / 0.001 (refused: <= 0.001) / -3 / abc              *)
-(*          metadata 4 / 0.001 / 0 / xyz                                   *)
-(*   k_exp  option 0.5 / 1 (accepted: in [0,1]) / 1.5 / abc                *)
-(*          metadata 0.3 / 0 (accepted) / -0.1 / k                         *)
+(*   area   option 2.25 / 0.001 (refused: <= 0.001) / -3 / abc             *)
+(*          metadata 4.75 / 0.001 / 0 / xyz                                *)
+(*   k_exp  option 0.25 / 1 (accepted: in [0,1]) / 1.5 / abc               *)
+(*          metadata 0.35 / 0 (accepted) / -0.1 / k                        *)
+(*   (two decimals, the precision at which the reports state both values)  *)
 (*   loc    option absent | "PENINSULA"; metadata absent | "CANARIAS" |    *)
 (*          "MARTE"; ffile TRUE/FALSE                                      *)
 (*   red    option absent | valid | text; metadata absent | valid | text   *)
@@ -23,16 +24,16 @@
 (***************************************************************************)
 EXTENDS Integers, Sequences, FiniteSets
 
-AreaOptVal(s) == CASE s = "valid" -> "2.5" [] s = "edge" -> "0.001" [] s = "range" -> "-3" [] s = "text" -> "abc" [] OTHER -> ""
-AreaMetaVal(s) == CASE s = "valid" -> "4" [] s = "edge" -> "0.001" [] s = "range" -> "0" [] s = "text" -> "xyz" [] OTHER -> ""
-KOptVal(s) == CASE s = "valid" -> "0.5" [] s = "edge" -> "1" [] s = "range" -> "1.5" [] s = "text" -> "abc" [] OTHER -> ""
-KMetaVal(s) == CASE s = "valid" -> "0.3" [] s = "edge" -> "0" [] s = "range" -> "-0.1" [] s = "text" -> "k" [] OTHER -> ""
+AreaOptVal(s) == CASE s = "valid" -> "2.25" [] s = "edge" -> "0.001" [] s = "range" -> "-3" [] s = "text" -> "abc" [] OTHER -> ""
+AreaMetaVal(s) == CASE s = "valid" -> "4.75" [] s = "edge" -> "0.001" [] s = "range" -> "0" [] s = "text" -> "xyz" [] OTHER -> ""
+KOptVal(s) == CASE s = "valid" -> "0.25" [] s = "edge" -> "1" [] s = "range" -> "1.5" [] s = "text" -> "abc" [] OTHER -> ""
+KMetaVal(s) == CASE s = "valid" -> "0.35" [] s = "edge" -> "0" [] s = "range" -> "-0.1" [] s = "text" -> "k" [] OTHER -> ""
 
 \* accepted values, in thousandths
 AreaOk(origin, s) == s = "valid"
-AreaMilli(origin, s) == IF origin = "opt" THEN 2500 ELSE 4000
+AreaMilli(origin, s) == IF origin = "opt" THEN 2250 ELSE 4750
 KOk(origin, s) == s \in {"valid", "edge"}
-KMilli(origin, s) == IF origin = "opt" THEN (IF s = "valid" THEN 500 ELSE 1000) ELSE (IF s = "valid" THEN 300 ELSE 0)
+KMilli(origin, s) == IF origin = "opt" THEN (IF s = "valid" THEN 250 ELSE 1000) ELSE (IF s = "valid" THEN 350 ELSE 0)
 
 Red1Opt == <<100, 1100, 110>>
 Red1Meta == <<200, 1200, 220>>
